@@ -904,6 +904,7 @@ class Interp:
                         r = CMPOPS[type(op)](left, right)
                 except UnknownTruth as u:
                     r = UnknownBool(u.why)
+                    r.cmp = (type(op).__name__, left, right)          # (a domain may turn the outcome chosen for the test into a fact about the operands)
                 except (Fork, AnalysisError, Raised):
                     raise
                 except TypeError as ex:
